@@ -1,7 +1,13 @@
 module verif
 
-go 1.21
+go 1.22.0
 
-require github.com/ichiban/prolog v0.0.0
+toolchain go1.23.5
+
+require (
+	github.com/anishathalye/porcupine v1.3.0
+	github.com/ichiban/prolog v0.0.0
+	golang.org/x/tools v0.29.0
+)
 
 replace github.com/ichiban/prolog => /repo
